@@ -8,6 +8,7 @@ another exception); the parse does not depend on keyword case; operands are
 verbatim; pack/unpack round trip is stable.
 """
 import itertools
+import json
 
 from harness import core
 
@@ -179,6 +180,47 @@ def check_rules(rules, res, rng, label):
                           "impl": i})
 
 
+def shard_add_api(seed, idx, n):
+    """Step / Inspection .add_material_rule_from_string / .add_product_rule_from_string: a rejected rule string must
+    leave the object as it was (a step or inspection containing a malformed rule cannot be constructed)."""
+    from in_toto.models.layout import Step, Inspection
+    from securesystemslib.exceptions import FormatError
+    res = core.Result()
+    rng = core.rng_for(seed, "c17", "add", idx)
+    words = ["MATCH", "match", "CREATE", "ALLOW", "DISALLOW", "require", "SUBVERT", "*", "foo", "WITH", "IN", "FROM", "PRODUCTS",
+             "materials", "dst", "'a b'", '"x"', ""]
+    for _ in range(n):
+        obj = rng.choice([Step, Inspection])(name="it")
+        obj.add_material_rule_from_string("ALLOW keep")
+        obj.add_product_rule_from_string("MATCH * WITH PRODUCTS FROM it")
+        text = " ".join(rng.choice(words) for _ in range(rng.randrange(0, 9)))
+        which = rng.choice(["material", "product"])
+        before = (json.dumps(obj.expected_materials), json.dumps(obj.expected_products))
+        try:
+            getattr(obj, "add_%s_rule_from_string" % which)(text)
+            out = "added"
+        except FormatError:
+            out = "FormatError"
+        except Exception as e:  # pylint: disable=broad-except
+            out = type(e).__name__
+        after = (json.dumps(obj.expected_materials), json.dumps(obj.expected_products))
+        try:
+            obj.validate()
+            valid = True
+        except Exception:  # pylint: disable=broad-except
+            valid = False
+        res.case({"add_rule_from_string": text, "to": which, "outcome": out}, out != "added", True, sample_cap=1)
+        res.count("add_api_" + out)
+        if out != "added" and before != after:
+            res.fail("oracle", {"op": "add_rule_from_string", "text": text, "list": which},
+                     {"why": "a rejected rule string changed the %s rules of the object" % which, "before": before, "after": after})
+        if not valid:
+            res.fail("oracle", {"op": "add_rule_from_string", "text": text, "list": which},
+                     {"why": "after add_%s_rule_from_string (%s) the object no longer validates: it contains a malformed rule" % (which, out),
+                      "rules": after})
+    return res
+
+
 def shard_exhaustive(alpha, length, first_tokens):
     res = core.Result()
     rng = core.rng_for(0, "c17", "ex", length, str(first_tokens))
@@ -238,7 +280,7 @@ def shard_structured(seed, idx, n_double, n_random):
 
 
 def run(tier, seed):
-    shards = []
+    shards = [(shard_add_api, (seed, i, 150 if tier == "quick" else 2500)) for i in range(4)]
     if tier == "quick":
         for L in range(0, 4):
             for t in (ALPHA if L else [ALPHA[0]]):
